@@ -85,7 +85,7 @@ def csnap(s):
 def case_term(c):
     steps = clist(["(%s, %s, %s)" % (cinput(s["in"]), cobs(s["out"]), csnap(s["snap"]))
                    for s in c["steps"]])
-    return "((%s : list key), (%s : list tstep))" % (clist([ck(k) for k in c["univ"]]), steps)
+    return "((%s : list key), (%s : list tstep))%%N" % (clist([ck(k) for k in c["univ"]]), steps)
 
 
 # ---- property predicate on the implementation's own trace ----------------------
@@ -173,6 +173,20 @@ def predicate(case):
                         adds.append(k)
                     seen.add(k)
                 info["adds"] = adds
+                # decision table on the implementation's own observation: a pending circuit
+                # restored from disk whose keystone is gone must be FAILED back, any other
+                # pending circuit dropped, an unknown one added
+                if o[0] == "commit":
+                    got = {"drop": [kt(x) for x in o[2]], "fail": [kt(x) for x in o[3]]}
+                    pv = {kt(e[0]): e[1] for e in prev["p"]}
+                    for k in dict.fromkeys(kt(x) for x in i[3]):
+                        if k in pv and not (o[4]):
+                            want = "fail" if (pv[k][3] and pv[k][2] is None) else "drop"
+                            other = "drop" if want == "fail" else "fail"
+                            if k not in got[want] or k in got[other]:
+                                fails.append(("C07_restart_exact_partial",
+                                              "step %d: re-forward of pending %s (loaded=%s, keystone=%s) "
+                                              "was not answered with %s" % (n, k, pv[k][3], pv[k][2], want)))
             if kind == "delete":
                 rem = [kt(k) for k in i[3] if kt(k) in pend_keys(prev)]
                 info["removed"] = rem
@@ -330,7 +344,7 @@ def judge(ctx, rows, suffix, label):
                               signature="circuit %s %s" % (f[0][0], f[0][1]))
     terms = [case_term(c) for c in rows]
     ok, bad, logs = coq_mismatches(ctx.uid(suffix), IMPORTS, terms,
-                                   shard=max(4, len(terms) // NCPU + 1), scope="N_scope")
+                                   shard=max(4, len(terms) // NCPU + 1))
     if not ok:
         ctx.violation("correspondence_mismatch", "Circuit.Exec (model evaluation failed)",
                       {"logs": logs, "batch": label}, signature="model-eval", failing_input=False)
